@@ -6,7 +6,7 @@ From Coq Require Import List NArith ZArith Bool Permutation.
 Import ListNotations.
 Require Import MV.Common.Interleave MV.C10.Model MV.C10.Spec MV.C10.Exec
                MV.C10.ProofsConc MV.C10.ProofsConc2 MV.C10.ProofsSeq MV.C10.ExecProofs
-               MV.C10.ProofsBound MV.C10.ProofsRefine MV.C10.ProofsWire MV.C10.ProofsSound MV.C10.ProofsSuffix MV.C10.ProofsAbs MV.C10.ProofsCompose MV.C10.ProofsCompose2 MV.C10.ProofsAbs2.
+               MV.C10.ProofsBound MV.C10.ProofsRefine MV.C10.ProofsWire MV.C10.ProofsSound MV.C10.ProofsSuffix MV.C10.ProofsAbs MV.C10.ProofsCompose MV.C10.ProofsCompose2 MV.C10.ProofsAbs2 MV.C10.ProofsSched MV.C10.ProofsSched2 MV.C10.ProofsSched3.
 Open Scope N_scope.
 
 (* counters driven only by increments, any number of updating and flushing threads, every schedule,
@@ -306,3 +306,58 @@ Theorem C10_absolute_no_wrap_outside_class : forall A f ps sched,
     Forall (fun d => d <= A) (sent (fst c) ++ rawd (fst c) ++ lost (fst c)) /\
     cur (cnt (fst c)) <= A /\ last (cnt (fst c)) <= cur (cnt (fst c)).
 Proof. exact absolute_no_wrap_outside_class. Qed.
+
+(* ---------------------------------------------------------------- round 6: the scheduled-case checker on the model *)
+(* [final ps sched] = the configuration the check's model run ends in (given schedule + round-robin tail) *)
+
+(* clause (1): every thread's results follow its program, call by call *)
+Theorem C10_sched_results_follow_programs : forall ps sched,
+  all2 follows ps (map (fun l => rev (results l)) (snd (final ps sched))) = true.
+Proof. exact sched_follows. Qed.
+
+(* clause (4): gauges driven only by set: every flushed value (and the final one) is 0 or a value set *)
+Theorem C10_sched_gauge_sets : forall ps sched, only_sets ps = true ->
+  forallb (fun z => existsb (fun z' => (z =? z')%Z) (set_values ps))
+          (gv (gau (fst (final ps sched))) :: gvals_of (map (fun l => rev (results l)) (snd (final ps sched)))) = true.
+Proof. exact sched_gauge_sets. Qed.
+
+(* clause (3): increment-only programs, run complete: the deltas RETURNED to the threads (raw flushes,
+   State::flush messages) plus the final flush add up to the increments (mod 2^64) *)
+Theorem C10_sched_conservation_on_results : forall ps sched,
+  has_uabs ps = false -> all_done (step all_fixed) (final ps sched) = true ->
+  (sumN (sub64 (cur (cnt (fst (final ps sched)))) (last (cnt (fst (final ps sched))))
+         :: deltas_of (map (fun l => rev (results l)) (snd (final ps sched))))) mod two64 = (inc_sum ps) mod two64.
+Proof. exact sched_conservation. Qed.
+
+(* clause (2), increment-only programs, one counter-flushing thread: no returned delta (nor the final
+   one) exceeds the sum of the increments - at every point, complete run or not *)
+Theorem C10_sched_delta_bound_increment_only : forall ps sched,
+  ps <> [] -> MV.C10.Exec.one_flusher ps = true -> has_uabs ps = false -> inc_sum ps < two64 ->
+  forallb (fun d => d <=? inc_sum ps)
+          (sub64 (cur (cnt (fst (final ps sched)))) (last (cnt (fst (final ps sched))))
+           :: deltas_of (map (fun l => rev (results l)) (snd (final ps sched)))) = true.
+Proof. exact sched_bound_inc. Qed.
+
+(* clause (2), increment-free programs, one counter-flushing thread, completed run outside the open class *)
+Theorem C10_sched_delta_bound_increment_free : forall ps sched,
+  ps <> [] -> MV.C10.Exec.one_flusher ps = true -> incfree ps = true -> abs_max ps < two64 ->
+  known_class (CSched ps sched) = None -> all_done (step all_fixed) (final ps sched) = true ->
+  forallb (fun d => d <=? abs_max ps)
+          (sub64 (cur (cnt (fst (final ps sched)))) (last (cnt (fst (final ps sched))))
+           :: deltas_of (map (fun l => rev (results l)) (snd (final ps sched)))) = true.
+Proof. exact sched_bound_abs. Qed.
+
+(* the composed statement for scheduled cases.  PARTIAL: [sched_wf] requires, besides a non-empty
+   thread list and a run that completes within the round-robin fuel, that the counter is driven only by
+   increments or only by absolutes; for programs MIXING increments and absolutes clause (2) (the
+   delta bound) is not proved on the model (full statement: the same without that disjunct) *)
+Theorem C10_spec_ok_on_model_sched_partial : forall ps sched,
+  known_class (CSched ps sched) = None -> sched_wf ps sched ->
+  spec_ok (CSched ps sched) (run_case (CSched ps sched)) = true.
+Proof. exact spec_ok_on_model_sched_partial. Qed.
+
+(* both case shapes ([case_wf] = seq_wf for sequential cases, sched_wf for scheduled ones; partial
+   only through sched_wf's increment-only-or-absolute-only disjunct) *)
+Theorem C10_spec_ok_on_model_partial : forall c,
+  known_class c = None -> case_wf c -> spec_ok c (run_case c) = true.
+Proof. exact spec_ok_on_model_partial. Qed.
